@@ -1288,6 +1288,17 @@ def _hs_bit(ex, guard, idv):
     return bv(1, w) << sh
 
 
+def m_next_power_of_two(ex, m, argv, guard, st, callee):
+    """uN::next_power_of_two: the smallest power of two >= x (1 for 0); a result that does not fit panics in debug builds."""
+    x = argv[0]
+    w = x.size()
+    res = bv(1 << (w - 1), w)
+    for k in range(w - 2, -1, -1):
+        res = zite(z3.ULE(x, bv(1 << k, w)), bv(1 << k, w), res)
+    ex.oblige('panic', zand(guard, z3.UGT(x, bv(1 << (w - 1), w))), 'next_power_of_two overflow')
+    return zand(guard, z3.ULE(x, bv(1 << (w - 1), w))), zsimp(res)
+
+
 def m_hashset_new(ex, m, argv, guard, st, callee):
     return guard, bv(0, _hs_width(ex))
 
@@ -1793,6 +1804,7 @@ def register(ex):
     A(r'^(?:core::panicking::|std::rt::)?(?:panic|panic_fmt|panic_explicit|begin_panic|unreachable_display|panic_nounwind|assert_failed|panic_const::\w+)\b.*$', m_panic, 'panic!/unreachable!/assert! failure')
     A(r'^core::panicking::.*$', m_panic, 'panic!/unreachable!/assert! failure')
     A(r'^<([iu](?:8|16|32|64|128|size)) as (?:std::convert::)?From<([iu](?:8|16|32|64|128|size)|bool)>>::from$', m_from_int, 'integer From (widening)')
+    A(r'^core::num::<impl (u(?:8|16|32|64|128|size))>::next_power_of_two$', m_next_power_of_two, 'uN::next_power_of_two')
     A(r'^core::num::<impl ([iu](?:8|16|32|64|128|size))>::checked_(add|sub|mul)$', m_checked, 'checked_add/sub/mul')
     A(r'^core::num::<impl ([iu](?:8|16|32|64|128|size))>::wrapping_(add|sub|mul)$', m_wrapping, 'wrapping_add/sub/mul')
     A(r'^core::num::<impl ([iu](?:8|16|32|64|128|size))>::overflowing_(add|sub|mul)$', m_overflowing, 'overflowing_add/sub/mul')
